@@ -183,7 +183,8 @@ MonInit(p) ==
                         \* monitor cannot follow);   dlp = layer-switch not yet certainly processed
    dlp |-> 0 - 1,
    seqq |-> 0,          \* > 0: a sequence may be active (completeness waived)
-   lead |-> 0,          \* sharp tracking of a sequence: 0 none, 1 leader pressed while idle and quiet, 2 leader certainly processed
+   lead |-> 0,          \* sharp tracking of a sequence: 0 none, 1 leader pressed while idle and quiet, 2 + n: leader certainly
+                        \* processed n ticks ago (the sequence it started times out T ticks after its last key)
    sact |-> 0,          \* > 0: a sequence is certainly still active for that many more ticks (first key of a longer sequence typed)
    sarm |-> FALSE,      \* the first key has been pressed (not yet certainly processed)
    hid |-> {},          \* keys pressed while a hidden sequence mode may have been active, whose (swallowed) press kanata may still hold
@@ -272,7 +273,7 @@ MonIn(m, r) ==
                            \* sharp window: leader pressed while kanata is idle and nothing else is pending, processed by
                            \* the next tick; then, as the very next press, the first key of a longer sequence
                            !.lead = IF isLeader /\ m.recent = {} /\ m.seqq = 0 THEN 1 ELSE 0,
-                           !.sarm = ~isLeader /\ m.lead = 2 /\ InSeq(sq.first, r.c),
+                           !.sarm = ~isLeader /\ m.lead >= 2 /\ (m.lead - 2) + 3 <= sq.T /\ InSeq(sq.first, r.c),
                            !.sact = 0,
                            !.hid = IF isLeader \/ m.seqq > 0 THEN @ \cup {r.c} ELSE @,
                            !.hidgone = IF isLeader \/ m.seqq > 0 THEN @ \ {r.c} ELSE @]
@@ -289,7 +290,7 @@ MonTick(m, out, idle, cb) ==
   IF m.err # "" THEN m
   ELSE LET m1 == ScanOut(m, out)
            m2 == [m1 EXCEPT !.seqq = IF @ > 0 THEN @ - 1 ELSE 0]
-           m2b == [m2 EXCEPT !.lead = IF @ = 1 THEN 2 ELSE @,
+           m2b == [m2 EXCEPT !.lead = IF @ = 1 THEN 2 ELSE IF @ >= 2 THEN OMin(@ + 1, m2.p.seq.T + 3) ELSE @,
                             !.sact = IF m2.sarm THEN (IF m2.p.seq.T > 3 THEN m2.p.seq.T - 3 ELSE 0) ELSE IF @ > 0 THEN @ - 1 ELSE 0,
                             !.sarm = FALSE]
        IN IF idle
@@ -300,5 +301,6 @@ MonTick(m, out, idle, cb) ==
 MonSilent(m, n, idle, cb) ==
   IF n = 0 \/ m.err # "" THEN m
   ELSE LET m1 == MonTick(m, <<>>, idle, cb) IN
-       [m1 EXCEPT !.seqq = IF @ > n - 1 THEN @ - (n - 1) ELSE 0, !.sact = IF @ > n - 1 THEN @ - (n - 1) ELSE 0]
+       [m1 EXCEPT !.seqq = IF @ > n - 1 THEN @ - (n - 1) ELSE 0, !.sact = IF @ > n - 1 THEN @ - (n - 1) ELSE 0,
+                  !.lead = IF @ >= 2 THEN OMin(@ + (n - 1), m1.p.seq.T + 3) ELSE @]
 =============================================================================
